@@ -19,20 +19,10 @@ for pid in ids:
     if not os.path.exists(path):
         na.append({"property_id": pid, "reason": NA_REASONS.get(pid, "check not built yet (work in progress); see DESIGN.md section 5 for the planned harness")})
         continue
-    src = open(path).read()
-    # META is a literal dict assigned at module level; import is heavy (needs the venv), so exec just that part
-    ns = {}
-    start = src.index("META = dict(")
-    depth = 0
-    for i in range(start + len("META = dict"), len(src)):
-        if src[i] == "(":
-            depth += 1
-        elif src[i] == ")":
-            depth -= 1
-            if depth == 0:
-                end = i + 1
-                break
-    exec(src[start:end], ns)
+    import ast
+    tree = ast.parse(open(path).read())
+    node = next(n for n in tree.body if isinstance(n, ast.Assign) and getattr(n.targets[0], "id", None) == "META")
+    ns = {"META": eval(compile(ast.Expression(node.value), path, "eval"), {"dict": dict})}
     meta = ns["META"]
     b = meta.get("bounds", {})
     checks.append({
